@@ -392,3 +392,124 @@ func derivesFromIteration(v ssa.Value, depth int) bool {
 	}
 	return false
 }
+
+// ruleC17WorkerContextLives: the per-region workers keep running after encryptAllRegions has returned its result channel,
+// so the context they use must not be one whose cancel function runs when that function returns.
+func ruleC17WorkerContextLives(c *Ctx) {
+	u := c.U1
+	c.rule("C17.worker-context-outlives-call", "in the KMS plugins no goroutine uses a context derived in the starting function (context.WithTimeout/WithCancel/WithDeadline) whose cancel is deferred there, unless the function waits for the goroutine before returning: otherwise every regional call is cancelled the moment the function returns and only the generating region's entry reaches the envelope", 1)
+	n, bad := 0, 0
+	for _, f := range u.RepoFuncs {
+		if f.Pkg == nil || f.Blocks == nil || f.Parent() != nil || (f.Pkg.Pkg.Path() != pkgKmsV1 && f.Pkg.Pkg.Path() != pkgKmsV2) {
+			continue
+		}
+		n++
+		for _, s := range cancelledContextEscapes(f) {
+			bad++
+			c.bad(trimPkgDirs(shortName(f))+"/derived-context-in-goroutine", u.ipos(s), "a goroutine started here uses a context whose cancel() is deferred in the starting function, and the function does not wait for the goroutine: the context is cancelled as soon as the function returns, the regional request fails with `context canceled`, and that region's entry is silently missing from the envelope")
+		}
+	}
+	if bad == 0 {
+		c.ok("kms-plugins/goroutine-contexts", "", fmt.Sprintf("no goroutine outlives a context cancelled by its starter (%d functions)", n))
+	}
+}
+
+// cancelledContextEscapes: go statements in f that use a context derived in f whose cancel is deferred in f, where f
+// returns on some path without a WaitGroup.Wait executed in f itself.
+func cancelledContextEscapes(f *ssa.Function) []ssa.Instruction {
+	var out []ssa.Instruction
+	// derived contexts with deferred cancel
+	type derived struct{ ctx, cancel ssa.Value }
+	var ds []derived
+	allInstrs(f, func(i ssa.Instruction) {
+		cv, ok := i.(*ssa.Call)
+		if !ok {
+			return
+		}
+		g := staticCallee(cv)
+		if g == nil || g.Pkg == nil || g.Pkg.Pkg.Path() != "context" || !(strings.HasPrefix(g.Name(), "WithTimeout") || strings.HasPrefix(g.Name(), "WithCancel") || strings.HasPrefix(g.Name(), "WithDeadline")) {
+			return
+		}
+		var d derived
+		for _, r := range *cv.Referrers() {
+			if ex, isEx := r.(*ssa.Extract); isEx {
+				if ex.Index == 0 {
+					d.ctx = ex
+				} else {
+					d.cancel = ex
+				}
+			}
+		}
+		if d.ctx != nil && d.cancel != nil {
+			ds = append(ds, d)
+		}
+	})
+	if len(ds) == 0 {
+		return nil
+	}
+	reachesVal := func(from, to ssa.Value) bool {
+		// to is from, or a load of a slot that from was stored into
+		if resolve(to) == from || to == from {
+			return true
+		}
+		if ld, ok := to.(*ssa.UnOp); ok {
+			if a, isA := ld.X.(*ssa.Alloc); isA {
+				for _, s := range localStores(a) {
+					if s == from {
+						return true
+					}
+				}
+			}
+		}
+		return false
+	}
+	waits := false
+	allInstrs(f, func(i ssa.Instruction) {
+		if _, isCall := i.(*ssa.Call); isCall && staticIs(i, "(*sync.WaitGroup).Wait") {
+			waits = true
+		}
+	})
+	for _, d := range ds {
+		deferred := false
+		allInstrs(f, func(i ssa.Instruction) {
+			if df, ok := i.(*ssa.Defer); ok && reachesVal(d.cancel, df.Call.Value) {
+				deferred = true
+			}
+		})
+		if !deferred || waits {
+			continue
+		}
+		// the slot(s) holding the derived context
+		holders := map[ssa.Value]bool{d.ctx: true}
+		if d.ctx.Referrers() != nil {
+			for _, r := range *d.ctx.Referrers() {
+				if st, ok := r.(*ssa.Store); ok && st.Val == d.ctx {
+					holders[st.Addr] = true
+				}
+			}
+		}
+		allInstrs(f, func(i ssa.Instruction) {
+			g, ok := i.(*ssa.Go)
+			if !ok {
+				return
+			}
+			uses := false
+			for _, a := range g.Call.Args {
+				if holders[a] || holders[resolve(a)] {
+					uses = true
+				}
+			}
+			if mc, isMC := g.Call.Value.(*ssa.MakeClosure); isMC {
+				for _, b := range mc.Bindings {
+					if holders[b] {
+						uses = true
+					}
+				}
+			}
+			if uses {
+				out = append(out, i)
+			}
+		})
+	}
+	return out
+}
